@@ -11,7 +11,7 @@ from .._backends.base import SOCKET_OPTION, NetworkBackend, NetworkStream
 from .._exceptions import ConnectError, ConnectionNotAvailable, ConnectTimeout
 from .._models import Origin, Request, Response
 from .._ssl import default_ssl_context
-from .._synchronization import Lock
+from .._synchronization import Lock, ShieldCancellation
 from .._trace import Trace
 from .http11 import HTTP11Connection
 from .interfaces import ConnectionInterface
@@ -158,9 +158,16 @@ class HTTPConnection(ConnectionInterface):
                         or self._origin.host.decode("ascii"),
                         "timeout": timeout,
                     }
-                    with Trace("start_tls", logger, request, kwargs) as trace:
-                        stream = stream.start_tls(**kwargs)
-                        trace.return_value = stream
+                    try:
+                        with Trace("start_tls", logger, request, kwargs) as trace:
+                            stream = stream.start_tls(**kwargs)
+                            trace.return_value = stream
+                    except BaseException:
+                        # The network backends close the socket when the
+                        # handshake fails, but not when it is cancelled.
+                        with ShieldCancellation():
+                            stream.close()
+                        raise
                 return stream
             except (ConnectError, ConnectTimeout):
                 if retries_left <= 0:
